@@ -72,11 +72,16 @@ def run(ctx):
     progs = []
     # FamC06/FamC07 hold the ill-typed and ill-scoped programs too: every typed position x every offered expression (calls without / with several results,
     # command calls, slices, nil, parenthesised forms), value lists, returns at every depth, every definition and use site
-    for fam, stride in (("FamC01", 9), ("FamC02", 2), ("FamC03", 5), ("FamC04", 2), ("FamC06", 2), ("FamC07", 3), ("FamC08", 23), ("FamC10", 11), ("FamC16", 1), ("FamC17", 3), ("FamC18", 1)):
+    # FamC09: multi-file programs - every import graph over main + 3 files with globals, import-time code and repeated imports of one file
+    for fam, stride in (("FamC01", 9), ("FamC02", 2), ("FamC03", 5), ("FamC04", 2), ("FamC06", 2), ("FamC07", 3), ("FamC08", 23), ("FamC09", 1), ("FamC10", 11), ("FamC16", 1), ("FamC17", 3), ("FamC18", 1)):
         cs = ctx.tlc_family(fam, constants={"Tier": '"quick"'}, timeout=3000)
         cs.sort(key=lambda c: c["id"])
         for c in cs[::(stride if quick else 1)]:
             progs.append({"id": "C13/prog/" + c["id"], "mode": "proto", "expect": "any", "prog": c["prog"], "text": ""})
+    import progflow
+    pairs = sorted(progflow.pair_cases(ctx), key=lambda c: c["id"])
+    for c in pairs[::(7 if quick else 1)]:
+        progs.append({"id": "C13/prog/" + c["id"], "mode": "proto", "expect": "any", "prog": c["prog"], "text": ""})
     total(ctx, progs, "progs", False)
     # seeded random texts
     rnd = random.Random(ctx.seed)
